@@ -348,11 +348,7 @@ Proof.
            ++ apply Z.eqb_eq in Exb. subst x.
               replace (b =? a) with false by (symmetry; apply Z.eqb_neq; lia).
               replace (b <? a) with true by (symmetry; apply Z.ltb_lt; lia).
-              rewrite umerge_cons, Z.eqb_refl.
-              (* (b, vx) :: (a, va) :: L' merged with (b, vb) :: R' *)
-              rewrite exact_comb_comm. f_equal.
-              (* remaining: (a, va) :: L' with R' on both sides *)
-              reflexivity.
+              rewrite umerge_cons, Z.eqb_refl. reflexivity.
            ++ apply Z.eqb_neq in Exb. destruct (x <? b) eqn:Exlb.
               ** apply Z.ltb_lt in Exlb.
                  replace (x =? a) with false by (symmetry; apply Z.eqb_neq; lia).
@@ -412,14 +408,75 @@ Qed.
 Lemma ins_keys_in k x vx m z : In z (keys (ins k x vx m)) <-> z = x \/ In z (keys m).
 Proof.
   induction m as [|[y vy] m' IH]; cbn [ins keys map fst In].
-  - tauto.
+  - intuition (subst; auto).
   - destruct (x =? y) eqn:E1.
-    + apply Z.eqb_eq in E1. subst. cbn [map fst In]. tauto.
-    + destruct (x <? y); cbn [map fst In]; [tauto|]. unfold keys in IH. rewrite IH. tauto.
+    + apply Z.eqb_eq in E1. subst. cbn [map fst In]. intuition (subst; auto).
+    + destruct (x <? y); cbn [map fst In]; [intuition (subst; auto)|].
+      unfold keys in IH. rewrite IH. intuition (subst; auto).
 Qed.
 
 Theorem group_by_keys k rows z : In z (keys (group_by k rows)) <-> In z (map fst rows).
 Proof.
   induction rows as [|[x vx] rest IH]; cbn [group_by map fst In]; [tauto|].
-  rewrite ins_keys_in, IH. split; intros [H|H]; auto.
+  rewrite ins_keys_in, IH. intuition (subst; auto).
+Qed.
+
+(* ---- the value of a group is the aggregate over exactly the rows of that group ------------------- *)
+
+Fixpoint lookup (x : Z) (m : assoc) : option Z :=
+  match m with
+  | [] => None
+  | (y, vy) :: m' => if x =? y then Some vy else lookup x m'
+  end.
+
+(* aggregate of a non-empty list of values, None for the empty list *)
+Fixpoint agg_list (k : agg_kind) (vs : list Z) : option Z :=
+  match vs with
+  | [] => None
+  | v :: r => match agg_list k r with None => Some v | Some a => Some (exact_comb k v a) end
+  end.
+
+Definition group_values (x : Z) (rows : list (Z * Z)) : list Z :=
+  map snd (filter (fun r => fst r =? x) rows).
+
+Lemma lookup_not_in x m : Forall (Z.lt x) (keys m) -> lookup x m = None.
+Proof.
+  induction m as [|[y vy] m' IH]; intros F; cbn [lookup keys map fst] in *; [reflexivity|].
+  inversion F as [|? ? Hy F']; subst.
+  replace (x =? y) with false by (symmetry; apply Z.eqb_neq; lia). apply IH. exact F'.
+Qed.
+
+Lemma lookup_ins k x vx m z :
+  ssorted (keys m) ->
+  lookup z (ins k x vx m) =
+    if z =? x then Some (match lookup x m with Some v => exact_comb k vx v | None => vx end)
+    else lookup z m.
+Proof.
+  unfold ssorted. induction m as [|[y vy] m' IH]; intros S; cbn [ins lookup keys map fst] in *.
+  - destruct (z =? x); reflexivity.
+  - inversion S as [|? ? S' Hy]; subst.
+    destruct (x =? y) eqn:Exy.
+    + apply Z.eqb_eq in Exy. subst y. cbn [lookup]. destruct (z =? x); reflexivity.
+    + apply Z.eqb_neq in Exy. destruct (x <? y) eqn:Elt.
+      * apply Z.ltb_lt in Elt. cbn [lookup].
+        rewrite (lookup_not_in x m') by (eapply Forall_impl; [|exact Hy]; intros a Ha; cbn in *; lia).
+        destruct (z =? x) eqn:Ezx; [reflexivity|]. reflexivity.
+      * cbn [lookup]. rewrite (IH S').
+        destruct (z =? y) eqn:Ezy.
+        -- apply Z.eqb_eq in Ezy. subst z.
+           replace (y =? x) with false by (symmetry; apply Z.eqb_neq; lia). reflexivity.
+        -- reflexivity.
+Qed.
+
+(* C04: every group carries the aggregate of exactly its rows; keys without rows are absent *)
+Theorem group_by_value k rows x :
+  lookup x (group_by k rows) = agg_list k (group_values x rows).
+Proof.
+  induction rows as [|[y vy] rest IH]; [reflexivity|].
+  cbn [group_by]. rewrite lookup_ins by apply group_by_sorted.
+  unfold group_values in *. cbn [filter fst].
+  destruct (x =? y) eqn:Exy.
+  - apply Z.eqb_eq in Exy. subst y. rewrite Z.eqb_refl. cbn [map snd agg_list].
+    rewrite <- IH. destruct (lookup x (group_by k rest)); reflexivity.
+  - rewrite Z.eqb_sym, Exy. exact IH.
 Qed.
